@@ -22,6 +22,17 @@ CLAIMS = {
  'C07': dict(ref='7/C07', partial=None,
    text='Theorems C07_stride (is_exhaustive <-> covers, both directions, any valid strides), C07_left/right, C07_lpad, C07_strided, C07_unique. Tied by comparing all six flags with the model and by evaluating image / injectivity / affinity of the implementation over complete small index spaces; every branch of layout_stride::is_exhaustive is counted in the evidence.',
    tech='Lean 4 proof + exact-transcript correspondence + coverage oracle', note='As C01. mdspan/mdarray forwarders are compared in the view op family (C13).'),
+ 'C04': dict(ref='7/C04', partial=None,
+   text='Theorems C04_alias, sub_alias_dot, compose_inB, presLeft_strides/presRight_strides, View.subs_addr: for every rank, every mix of index/range/full/strided slices and chains of views of any depth, element js of the view is the source element first_k + j*step_k, and that index lies inside the source; keeping layout_left/right is sound. Tied by exact transcripts of submdspan_mapping (offset, extents, layout kind, strides, and the address of every element of small results) against the machine-layer model over all slice-kind tuples up to rank 3, and by the slicing rule evaluated on the implementation\'s outputs.',
+   tech='Lean 4 proof + exact-transcript correspondence of submdspan_mapping incl. per-element addresses',
+   note='Slice values are assumed representable in index_type. The mdspan-level submdspan (accessor offset()/offset_policy) is covered by the view op family (C03/C11) once built; user layouts providing submdspan_mapping are not instantiated yet.'),
+ 'C10': dict(ref='7/C10', partial=None,
+   text='Theorem C10_offset_le (and compose_inB/C04_alias for the fit of non-empty views): for every valid slice tuple, including empty slices that start at the end of an extent, the reported offset is at most required_span_size() of the source. Tied by comparing offset, view span and source span of every generated submdspan_mapping call with the model (generator biased to begin == end == extent) and by the inequality itself on the implementation\'s outputs. The pinned tree violated this (fixed: 007cdd2).',
+   tech='Lean 4 proof + exact-transcript correspondence + inequality oracle', note='As C04.'),
+ 'C14': dict(ref='7/C14', partial='integer arithmetic, internal array indexing and division only; lifetime/aliasing UB is not modelled (UBSan and constant evaluation witness it on the inputs run).',
+   text='Refinement theorems C14_right_offset, C14_left_offset, C14_span_lr, C14_span_stride, findNextMultipleM_refines: for all eight index types, whenever the span (zeros counted as one) is representable the machine-integer mirror returns ok of the mathematical value - no overflow, no division by zero. Tied three ways: every op line the Lean predicate admB marks admissible must run trap-free under UBSan-trap op servers (mappings and submdspan_mapping), signed beyond-boundary lines must trap exactly where the machine layer predicts, and a sample of admissible cases is evaluated as constexpr variables and compared with the run-time values.',
+   tech='Lean 4 refinement proofs (machine integers -> naturals) + UBSan-trap and constexpr correspondence',
+   note='Refinement theorems exist for left/right offsets, left/right/stride spans and find_next_multiple; padded offsets, stride(r) loops, is_exhaustive and submdspan arithmetic are tied by the transcript only (model agrees with the code on every admissible and inadmissible line) - extending the theorems is ongoing.'),
 }
 NOT_YET = 'check not built yet (work in progress; DESIGN.md section 7 describes the planned proof and correspondence)'
 
